@@ -433,7 +433,7 @@ def gen(rng, tier):
     quick = tier == "quick"
     cases = []
     targets = ["t", "app.tap", "x.new"]
-    for _ in range(260 if quick else 6000):
+    for _ in range(260 if quick else 3000):
         target = rng.choice(targets)
         init = []
         r = rng.random()
